@@ -311,6 +311,31 @@ class Hostile:
         m = self._some_valid(cls)
         return m.serialize()[4:], 'valid', qname(type(m))
 
+    def count_bombs(self):
+        """For every receivable class and every array / string / bytes length field of one valid
+        instance: the body that ENDS right after that field, with the field set to 0xFFFFFFFF (a
+        count that lies about everything that follows) -> list of (body, category, class name)."""
+        out = []
+        for cls in self.classes:
+            best = None
+            for _ in range(6):                      # an instance that shows as many length fields as possible
+                m = self.gen.message(cls)
+                if m is not None:
+                    lay = layout(m)
+                    if best is None or len(lay[2]) > len(best[2]):
+                        best = lay
+            if best is None:
+                continue
+            code, payload, marks, comp = best
+            seen = set()
+            for off, what, _n in marks:
+                if (what, off) in seen:
+                    continue
+                seen.add((what, off))
+                p = payload[:off] + b'\xff\xff\xff\xff'
+                out.append((body_of(code, p, comp), 'count_at_end', qname(cls)))
+        return out
+
     def next_class(self):
         """Round-robin over the receivable classes so that every handler gets its turn."""
         c = self.classes[self._cycle % len(self.classes)]
